@@ -27,8 +27,11 @@ Record query := {
 Definition sdefs := list (uid * expr).
 Definition slabels := list (uid * string).
 
+(* FROM: a database table, or the rows of a compound (UNION) that was compiled before *)
+Inductive from_ := FTable (t : string) | FRows (f : db -> list (list value)).
+
 Record compiled := {
-  c_from : string; c_cols : list uid; c_q : query;
+  c_from : from_; c_cols : list uid; c_q : query;
   c_labels : slabels; c_defs : sdefs;
   c_scope : list uid        (* the columns that can be referenced (Cache.cols): not used by compile_ast itself *)
 }.
@@ -72,10 +75,85 @@ Definition with_q (c : compiled) (q : query) : compiled :=
   {| c_from := c_from c; c_cols := c_cols c; c_q := q; c_labels := c_labels c; c_defs := c_defs c;
      c_scope := c_scope c |}.
 
+(* ---------- the meaning of the SELECT ----------
+   A "unit" is what one output row is computed from: for a summarized query a group of FROM rows
+   (aggregates range over the group, other columns are read from its first row), otherwise one FROM
+   row together with all FROM rows that pass WHERE (what a window function ranges over).  Expressions
+   are evaluated with Model/Expr.eval: ctx = the group / the rows passing WHERE, cur = the row. *)
+Definition unit_ := (list irow * irow)%type.
+
+Definition ev (ds : sdefs) (u : unit_) (e : expr) : value := eval (fst u) (snd u) (subst ds e).
+Definition evd (ds : sdefs) (u : unit_) (x : uid) : value := eval (fst u) (snd u) (def_of ds x).
+Definition all_true (ds : sdefs) (ps : list expr) (u : unit_) : bool :=
+  forallb (fun p => value_eqb (ev ds u p) (VBool true)) ps.
+
+Definition base_rows (d : db) (c : compiled) : list row :=
+  map (zip_row (c_cols c)) (match c_from c with FTable t => db_get d t | FRows f => f d end).
+
+Definition mk1 (r : row) : unit_ := ([], (O, r)).
+Definition mkg (kg : list value * list row) : unit_ :=
+  let ctx := index_rows (snd kg) in (ctx, match ctx with ir :: _ => ir | [] => (O, []) end).
+
+Definition units_of (base : list row) (ds : sdefs) (wh hv : list expr) (grp : list uid) (summ : bool) : list unit_ :=
+  let w := filter (fun r => all_true ds wh (mk1 r)) base in
+  let us0 :=
+      if summ then
+        map mkg (match grp with
+                 | [] => [([], w)]
+                 | g => group_rows (fun r => map (fun x => evd ds (mk1 r) x) g) w []
+                 end)
+      else let iw := index_rows w in map (fun ir => (iw, ir)) iw in      (* window functions range over all rows that pass WHERE *)
+  filter (all_true ds hv) us0.
+
+Definition units (d : db) (c : compiled) : list unit_ :=
+  let q := c_q c in units_of (base_rows d c) (c_defs c) (q_where q) (q_having q) (q_group q) (q_summ q).
+
+Definition le_keys (ms : list omark) (a b : list value * unit_) : bool :=
+  match cmp_keys ms (fst a) (fst b) with Gt => false | _ => true end.
+
+Definition order_units (ds : sdefs) (os : list (expr * omark)) (us : list unit_) : list unit_ :=
+  match os with
+  | [] => us
+  | _ => map snd (ssort (le_keys (map snd os)) (map (fun u => (map (fun o => ev ds u (fst o)) os, u)) us))
+  end.
+
+Definition cut {X} (lim : option Z) (off : Z) (l : list X) : list X :=
+  match lim with
+  | None => l
+  | Some n => firstn (Z.to_nat n) (skipn (Z.to_nat off) l)
+  end.
+
+Definition final_units (d : db) (c : compiled) : list unit_ :=
+  let q := c_q c in cut (q_limit q) (q_offset q) (order_units (c_defs c) (q_order q) (units d c)).
+
+Definition sem_query (d : db) (c : compiled) : frame :=
+  let ds := c_defs c in
+  {| f_names := map (label (c_labels c)) (q_select (c_q c));
+     f_rows := map (fun u => map (evd ds u) (q_select (c_q c))) (final_units d c) |}.
+
+(* ---------- compile_ast ---------- *)
+(* UNION: both operands are compiled to complete SELECTs; the right select list is put into the order of
+   the left column names (looked up by name among the right operand's visible columns); the compound
+   becomes the FROM of a fresh query that selects the left operand's columns *)
+Fixpoint dedup_vals (seen : list (list value)) (rs : list (list value)) : list (list value) :=
+  match rs with
+  | [] => []
+  | r :: rs' => if existsb (values_eqb r) seen then dedup_vals seen rs' else r :: dedup_vals (r :: seen) rs'
+  end.
+Fixpoint map_opt {X Y} (f : X -> option Y) (l : list X) : option (list Y) :=
+  match l with
+  | [] => Some []
+  | x :: l' => match f x, map_opt f l' with Some y, Some ys => Some (y :: ys) | _, _ => None end
+  end.
+Definition by_name (c : compiled) (n : string) : option uid :=
+  find (fun u => String.eqb (label (c_labels c) u) n) (q_select (c_q c)).
+Definition union_right_select (cl cr : compiled) : option (list uid) :=
+  map_opt (by_name cr) (map (label (c_labels cl)) (q_select (c_q cl))).
+
 Fixpoint compile (a : ast) : option compiled :=
   match a with
   | Source t cols =>
-      Some {| c_from := t; c_cols := map snd cols; c_q := q0 (map snd cols);
+      Some {| c_from := FTable t; c_cols := map snd cols; c_q := q0 (map snd cols);
               c_labels := map (fun p => (snd p, fst p)) cols;
               c_defs := map (fun p => (snd p, ECol (snd p))) cols;
               c_scope := map snd cols |}
@@ -157,63 +235,27 @@ Fixpoint compile (a : ast) : option compiled :=
       end
   | Ungroup c => match compile c with Some cc => Some (with_q cc (set_part (c_q cc) [])) | None => None end
   | Alias c None => compile c
-  | _ => None                       (* alias with a uid map, subquery marker, join, union: not in this model *)
+  | Union l r distinct =>
+      match compile l, compile r with
+      | Some cl, Some cr =>
+          let lsel := q_select (c_q cl) in
+          match union_right_select cl cr with
+          | Some rsel =>
+              let cr' := with_q cr (set_select (c_q cr) rsel) in
+              Some {| c_from := FRows (fun d =>
+                                  let all := f_rows (sem_query d cl) ++ f_rows (sem_query d cr') in
+                                  if distinct then dedup_vals [] all else all);
+                      c_cols := lsel; c_q := q0 lsel;
+                      c_labels := map (fun u => (u, label (c_labels cl) u)) lsel;
+                      c_defs := map (fun u => (u, ECol u)) lsel;
+                      c_scope := lsel |}
+          | None => None             (* ValueError: a left column name is missing on the right *)
+          end
+      | _, _ => None
+      end
+  | _ => None                       (* alias with a uid map, subquery marker, join: not in this model *)
   end.
 
-(* ---------- the meaning of the SELECT ----------
-   A "unit" is what one output row is computed from: for a summarized query a group of FROM rows
-   (aggregates range over the group, other columns are read from its first row), otherwise one FROM
-   row together with all FROM rows that pass WHERE (what a window function ranges over).  Expressions
-   are evaluated with Model/Expr.eval: ctx = the group / the rows passing WHERE, cur = the row. *)
-Definition unit_ := (list irow * irow)%type.
-
-Definition ev (ds : sdefs) (u : unit_) (e : expr) : value := eval (fst u) (snd u) (subst ds e).
-Definition evd (ds : sdefs) (u : unit_) (x : uid) : value := eval (fst u) (snd u) (def_of ds x).
-Definition all_true (ds : sdefs) (ps : list expr) (u : unit_) : bool :=
-  forallb (fun p => value_eqb (ev ds u p) (VBool true)) ps.
-
-Definition base_rows (d : db) (c : compiled) : list row := map (zip_row (c_cols c)) (db_get d (c_from c)).
-
-Definition mk1 (r : row) : unit_ := ([], (O, r)).
-Definition mkg (kg : list value * list row) : unit_ :=
-  let ctx := index_rows (snd kg) in (ctx, match ctx with ir :: _ => ir | [] => (O, []) end).
-
-Definition units_of (base : list row) (ds : sdefs) (wh hv : list expr) (grp : list uid) (summ : bool) : list unit_ :=
-  let w := filter (fun r => all_true ds wh (mk1 r)) base in
-  let us0 :=
-      if summ then
-        map mkg (match grp with
-                 | [] => [([], w)]
-                 | g => group_rows (fun r => map (fun x => evd ds (mk1 r) x) g) w []
-                 end)
-      else let iw := index_rows w in map (fun ir => (iw, ir)) iw in      (* window functions range over all rows that pass WHERE *)
-  filter (all_true ds hv) us0.
-
-Definition units (d : db) (c : compiled) : list unit_ :=
-  let q := c_q c in units_of (base_rows d c) (c_defs c) (q_where q) (q_having q) (q_group q) (q_summ q).
-
-Definition le_keys (ms : list omark) (a b : list value * unit_) : bool :=
-  match cmp_keys ms (fst a) (fst b) with Gt => false | _ => true end.
-
-Definition order_units (ds : sdefs) (os : list (expr * omark)) (us : list unit_) : list unit_ :=
-  match os with
-  | [] => us
-  | _ => map snd (ssort (le_keys (map snd os)) (map (fun u => (map (fun o => ev ds u (fst o)) os, u)) us))
-  end.
-
-Definition cut {X} (lim : option Z) (off : Z) (l : list X) : list X :=
-  match lim with
-  | None => l
-  | Some n => firstn (Z.to_nat n) (skipn (Z.to_nat off) l)
-  end.
-
-Definition final_units (d : db) (c : compiled) : list unit_ :=
-  let q := c_q c in cut (q_limit q) (q_offset q) (order_units (c_defs c) (q_order q) (units d c)).
-
-Definition sem_query (d : db) (c : compiled) : frame :=
-  let ds := c_defs c in
-  {| f_names := map (label (c_labels c)) (q_select (c_q c));
-     f_rows := map (fun u => map (evd ds u) (q_select (c_q c))) (final_units d c) |}.
 
 (* ---------- the fragment for which compile correctness is proved ---------- *)
 Fixpoint elem (e : expr) : bool :=          (* no aggregate / window function anywhere *)
@@ -335,5 +377,37 @@ Fixpoint flat_ok (a : ast) : bool :=
          | None => false
          end
   | SliceHead c n k => flat_ok c && Z.leb 0 n && Z.leb 0 k
+  | Union l r _ =>                              (* compile = Some: every left column name exists on the right *)
+      flat_ok l && flat_ok r && match compile l with Some cl => nodup_u (q_select (c_q cl)) | None => false end
   | _ => false
+  end.
+
+(* the select lists handed to compile_query while the unions of the pipeline are compiled, in call order:
+   both operands of every union, the right one after the reordering by name (a right operand whose column
+   names are not already in the left order is compiled a second time, wrapped in a Select) *)
+Fixpoint names_eqb2 (a b : list string) : bool :=
+  match a, b with
+  | [], [] => true
+  | x :: a', y :: b' => String.eqb x y && names_eqb2 a' b'
+  | _, _ => false
+  end.
+Fixpoint cq_log (a : ast) : list (list uid) :=
+  match a with
+  | Source _ _ => []
+  | Select c _ | Rename c _ | Mutate c _ | Filter c _ | Arrange c _ | SliceHead c _ _
+  | GroupBy c _ _ | Ungroup c | Summarize c _ | Alias c _ | SubqueryMarker c => cq_log c
+  | Join l r _ _ => cq_log l ++ cq_log r
+  | Union l r _ =>
+      cq_log l ++ cq_log r ++
+      match compile l, compile r with
+      | Some cl, Some cr =>
+          let lnames := map (label (c_labels cl)) (q_select (c_q cl)) in
+          let rnames := map (label (c_labels cr)) (q_select (c_q cr)) in
+          (if names_eqb2 lnames rnames then [] else cq_log r) ++
+          match union_right_select cl cr with
+          | Some rsel => [q_select (c_q cl); rsel]
+          | None => []
+          end
+      | _, _ => []
+      end
   end.
